@@ -92,6 +92,8 @@ def gen_text(rng, max_chars=3500):
                             s += "[%d]" % rng.choice([0, 1, 7, 12, 255, 9999])
                     else:
                         s += "0"
+                        if rng.random() < ksp / 3:  # a keysound bracket on an empty cell: no note, no after-effect
+                            s += "[%d]" % rng.choice([0, 7, 12, 255])
                 pad = rng.random()
                 if pad < 0.15:
                     s = rng.choice([" ", "  ", "\t"]) + s
